@@ -412,7 +412,7 @@ func (p *schedPhase) collect(r *vk.Run) map[string]any {
 			if i := strings.IndexByte(l, '\n'); i >= 0 {
 				l = l[:i]
 			}
-			r.Violation("freerun: "+l, map[string]any{"output": tailStr(s, 4000), "note": "free-running goroutines: which run fails is timing dependent; the schedule phase gives the reproducible schedule"})
+			r.Violation("freerun: shared-AEAD oracle failed with free-running goroutines", map[string]any{"first": l, "output": tailStr(s, 4000), "note": "free-running goroutines: which scenario/class fails first is timing dependent; the schedule phase gives the reproducible schedule"})
 			raceNote = "free-running oracle failure"
 		case p.raceErr != nil || !strings.Contains(s, "FREERUN-OK"):
 			r.HarnessError("race pass failed: %v %s", p.raceErr, tailStr(s, 600))
